@@ -11,6 +11,7 @@ import (
 	"os/signal"
 	"path/filepath"
 	"regexp"
+	"runtime"
 	"runtime/debug"
 	"runtime/pprof"
 	"sort"
@@ -653,6 +654,17 @@ func nativeReplay(spec *Spec, rf *ReplayFile, path string, workDir string) (map[
 		}
 	}
 	cmd := exec.Command(bin, "-test.run", "^TestZZReplay$", "-test.v", "-test.timeout", testTimeout)
+	// a counterexample that fixes runtime.NumCPU is replayed on that many CPUs (Go derives NumCPU from the affinity mask)
+	for _, c := range rf.Cases {
+		if mv, ok := c.Values["$NumCPU"]; ok {
+			if k, err := strconv.Atoi(mv.V); err == nil && k >= 1 && k <= runtime.NumCPU() {
+				if ts, err := exec.LookPath("taskset"); err == nil {
+					cmd = exec.Command(ts, "-c", fmt.Sprintf("0-%d", k-1), bin, "-test.run", "^TestZZReplay$", "-test.v", "-test.timeout", testTimeout)
+				}
+			}
+			break
+		}
+	}
 	cmd.Dir = workDir
 	cmd.Env = append(os.Environ(), "ZZVERIF_REPLAY="+path)
 	out, _ := cmd.CombinedOutput()
